@@ -8,6 +8,6 @@ CONSTANTS SlabSize = 2
           Defect_NoResetOnDrain = FALSE
 INIT Init
 NEXT Next
-INVARIANTS SlotInRange NoDangling ReleasedAtOutermostDrain CleanStart CleanAfterFree CounterAgrees
+INVARIANTS SlotInRange NoDangling ReleasedAtOutermostDrain CleanStart CleanAfterFree CounterAgrees IndInv
 VIEW View
 CHECK_DEADLOCK FALSE
